@@ -11,7 +11,9 @@
     Each [spec_<builder> I u v t] says, from the instance alone, when the
     DiGraph holds the edge [u -> v] with type [t]. Every predicate has a
     boolean twin ([…b]) which is extracted and applied to the IMPLEMENTATION's
-    node and edge lists; the agreement lemmas are at the end of the file. *)
+    node and edge lists; the agreement lemmas ([…b_spec], [oracle_edges_exact],
+    [nodes_eqb_eq]) are in proofs/GraphSpecFacts.v and restated in
+    properties/C16.v ([C16_oracle_is_spec], [C16_oracle_lists]). *)
 From JSL Require Import Base Instance Dstate Graph Feasible.
 From Coq Require Import Lia.
 
